@@ -1,6 +1,9 @@
 package pgsim
 
-import "strings"
+import (
+	"strconv"
+	"strings"
+)
 
 func (p *parser) createStmt() (Stmt, error) {
 	p.i++ // create
@@ -51,8 +54,78 @@ func (p *parser) createStmt() (Stmt, error) {
 		if err != nil {
 			return nil, err
 		}
-		for !p.atEOF() && !p.peek().isOp(";") {
+		// options (CREATE SEQUENCE, Postgres docs): parsed, never skipped — CACHE changes the
+		// order in which concurrent sessions receive values
+		num := func() (int64, error) {
+			neg := false
+			if p.peek().isOp("-") {
+				p.i++
+				neg = true
+			}
+			if p.peek().k != tNumber {
+				return 0, p.errHere("CREATE SEQUENCE: number expected")
+			}
+			v, err := strconv.ParseInt(p.peek().s, 10, 64)
+			if err != nil {
+				return 0, p.errHere("CREATE SEQUENCE: bad number")
+			}
 			p.i++
+			if neg {
+				v = -v
+			}
+			return v, nil
+		}
+		for !p.atEOF() && !p.peek().isOp(";") {
+			switch {
+			case p.kws("owned", "by"):
+				if p.kw("none") {
+					break
+				}
+				// table.column or schema.table.column
+				for {
+					if _, err := p.ident(); err != nil {
+						return nil, err
+					}
+					if !p.peek().isOp(".") {
+						break
+					}
+					p.i++
+				}
+			case p.kw("as"):
+				if _, err := p.ident(); err != nil {
+					return nil, err
+				}
+			case p.kw("cache"):
+				if s.Cache, err = num(); err != nil {
+					return nil, err
+				}
+				if s.Cache < 1 {
+					return nil, p.errHere("CREATE SEQUENCE: CACHE must be >= 1")
+				}
+			case p.kw("start"):
+				p.kw("with")
+				if s.Start, err = num(); err != nil {
+					return nil, err
+				}
+			case p.kw("increment"):
+				p.kw("by")
+				if s.Increment, err = num(); err != nil {
+					return nil, err
+				}
+				if s.Increment < 1 {
+					return nil, p.errHere("CREATE SEQUENCE: only positive INCREMENT is supported")
+				}
+			case p.kw("minvalue"), p.kw("maxvalue"):
+				if _, err = num(); err != nil {
+					return nil, err
+				}
+			case p.kw("no"):
+				if !(p.kw("minvalue") || p.kw("maxvalue") || p.kw("cycle")) {
+					return nil, p.errHere("CREATE SEQUENCE: unsupported NO option")
+				}
+			default:
+				return nil, p.errHere("CREATE SEQUENCE: unsupported option")
+			}
 		}
 		return s, nil
 	case p.kw("function"):
